@@ -126,6 +126,164 @@ pub proof fn lemma_bits_back(c: Cfg, a: Ans, es: Seq<E>)
     }
 }
 
+// ---------- C12: integer potential, one step (flush or not) and n steps ----------
+pub open spec fn kk(c: Cfg, prec: nat) -> nat { pow2((c.sb - c.wb - prec) as nat) }
+pub open spec fn phi(c: Cfg, a: Ans) -> nat { hd(c, a) * pow2(c.wb * a.bulk.len()) }
+
+/// head update from a state s that is bounded by s0 >= p*k:  max(t, th) * p * k <= s0 * 2^P * (k+1)
+proof fn lemma_head_step(c: Cfg, s: nat, s0: nat, cum: nat, p: nat, prec: nat)
+    requires cfg_ok(c, prec), entry_ok(cum, p, prec), s <= s0, p * kk(c, prec) <= s0
+    ensures ({
+        let th = pow2((c.sb - c.wb) as nat); let k = kk(c, prec);
+        let t = (s / p) * pow2(prec) + cum + s % p;
+        let t0 = if t >= th { t } else { th };
+        t0 * p * k <= s0 * pow2(prec) * (k + 1)
+    })
+{
+    let P2 = pow2(prec); let th = pow2((c.sb - c.wb) as nat); let k = kk(c, prec);
+    lemma_pow2_pos(prec); lemma_pow2_pos((c.sb - c.wb) as nat); lemma_pow2_pos((c.sb - c.wb - prec) as nat);
+    lemma_pow2_adds((c.sb - c.wb - prec) as nat, prec);   // k*P2 == th
+    let t = (s / p) * P2 + cum + s % p;
+    lemma_fundamental_div_mod(s as int, p as int);
+    lemma_mod_bound(s as int, p as int);
+    assert(t * p <= (s + p) * P2) by {
+        assert(t < (s / p + 1) * P2) by { lemma_mul_is_distributive_add_other_way(P2 as int, (s/p) as int, 1); }
+        lemma_mul_inequality(t as int, ((s / p + 1) * P2) as int, p as int);
+        lemma_mul_is_associative((s / p + 1) as int, P2 as int, p as int);
+        lemma_mul_is_commutative(P2 as int, p as int);
+        lemma_mul_is_associative((s / p + 1) as int, p as int, P2 as int);
+        lemma_mul_is_distributive_add_other_way(p as int, (s / p) as int, 1);
+        lemma_mul_is_commutative((s/p) as int, p as int);
+        assert((s / p + 1) * p <= s + p);
+        lemma_mul_inequality(((s / p + 1) * p) as int, (s + p) as int, P2 as int);
+    }
+    if t < th {
+        assert(th * p * k <= s0 * P2 * (k + 1)) by {
+            // th*p*k = k*P2*p*k ; p*k <= s0  =>  k*P2*(p*k) <= k*P2*s0 <= (k+1)*P2*s0
+            assert(th * p * k == (k * P2) * (p * k)) by { lemma_mul_is_associative(th as int, p as int, k as int); }
+            lemma_mul_inequality((p * k) as int, s0 as int, (k * P2) as int);
+            lemma_mul_is_commutative((k * P2) as int, (p * k) as int); lemma_mul_is_commutative((k * P2) as int, s0 as int);
+            assert((k * P2) * s0 == s0 * P2 * k) by { lemma_mul_is_commutative(k as int, P2 as int); lemma_mul_is_associative(s0 as int, P2 as int, k as int); lemma_mul_is_commutative((P2 * k) as int, s0 as int); }
+            lemma_mul_inequality(k as int, (k + 1) as int, (s0 * P2) as int);
+            lemma_mul_is_commutative(k as int, (s0 * P2) as int); lemma_mul_is_commutative((k + 1) as int, (s0 * P2) as int);
+        }
+    } else {
+        assert(t * p * k <= s0 * P2 * (k + 1)) by {
+            lemma_mul_inequality((t * p) as int, ((s + p) * P2) as int, k as int);
+            lemma_mul_is_associative((s + p) as int, P2 as int, k as int);
+            lemma_mul_is_commutative(P2 as int, k as int);
+            lemma_mul_is_associative((s + p) as int, k as int, P2 as int);
+            lemma_mul_is_distributive_add_other_way(k as int, s as int, p as int);
+            assert((s + p) * P2 * k == (s * k + p * k) * P2);
+            lemma_mul_inequality(s as int, s0 as int, k as int);
+            lemma_mul_is_distributive_add(s0 as int, k as int, 1);
+            assert(s * k + p * k <= s0 * (k + 1));
+            lemma_mul_inequality((s * k + p * k) as int, (s0 * (k + 1)) as int, P2 as int);
+            lemma_mul_is_associative(s0 as int, (k + 1) as int, P2 as int);
+            lemma_mul_is_commutative((k + 1) as int, P2 as int);
+            lemma_mul_is_associative(s0 as int, P2 as int, (k + 1) as int);
+        }
+    }
+}
+
+/// C12, one symbol (flush or not): phi(push(a)) * p * 2^k <= phi(a) * 2^P * (2^k + 1), and at most one word is pushed
+pub proof fn lemma_potential_step(c: Cfg, a: Ans, cum: nat, p: nat, prec: nat)
+    requires cfg_ok(c, prec), inv(c, a), entry_ok(cum, p, prec)
+    ensures
+        phi(c, push(c, a, cum, p, prec)) * p * kk(c, prec) <= phi(c, a) * pow2(prec) * (kk(c, prec) + 1),
+        push(c, a, cum, p, prec).bulk.len() <= a.bulk.len() + 1,
+{
+    let W = pow2(c.wb); let P2 = pow2(prec); let th = pow2((c.sb - c.wb) as nat); let k = kk(c, prec);
+    let hi = pow2((c.sb - prec) as nat);
+    lemma_pow2_pos(prec); lemma_pow2_pos(c.wb); lemma_pow2_pos((c.sb - c.wb) as nat); lemma_pow2_pos((c.sb - c.wb - prec) as nat); lemma_pow2_pos((c.sb - prec) as nat);
+    lemma_pow2_adds((c.sb - c.wb - prec) as nat, prec);   // k*P2 == th
+    lemma_pow2_adds((c.sb - c.wb - prec) as nat, c.wb);   // k*W == hi
+    let n = a.bulk.len();
+    let Wn = pow2(c.wb * n);
+    lemma_pow2_pos(c.wb * n);
+    let b = push(c, a, cum, p, prec);
+    let fl = a.state / hi >= p;
+    assert(p * k <= th) by { lemma_mul_inequality(p as int, P2 as int, k as int); lemma_mul_is_commutative(P2 as int, k as int); lemma_mul_is_commutative(p as int, k as int); }
+    if fl {
+        let s1 = a.state / W;
+        // a.state >= p*hi = p*k*W  =>  s1 >= p*k ;  a.state >= th so hd(a) == a.state ; s1 * W <= a.state
+        lemma_div_ge_from_quot(a.state, hi, p);
+        assert(p * hi == (p * k) * W) by { lemma_mul_is_associative(p as int, k as int, W as int); }
+        lemma_div_ge(a.state, W, p * k);
+        lemma_fundamental_div_mod(a.state as int, W as int); lemma_mod_bound(a.state as int, W as int);
+        lemma_mul_is_commutative(W as int, s1 as int);
+        assert(hi >= th) by { if prec < c.wb { lemma_pow2_strictly_increases((c.sb - c.wb) as nat, (c.sb - prec) as nat); } }
+        assert(a.state >= th) by { lemma_mul_inequality(1, p as int, hi as int); }
+        lemma_head_step(c, s1, s1, cum, p, prec);
+        let t0 = hd(c, b);
+        // phi(b) = t0 * W^(n+1) ; multiply t0*p*k <= s1*P2*(k+1) by W^(n+1) and use s1*W <= a.state
+        assert(b.bulk.len() == n + 1);
+        assert(c.wb * (n + 1) == c.wb * n + c.wb) by { lemma_mul_is_distributive_add(c.wb as int, n as int, 1); }
+        lemma_pow2_adds(c.wb * n, c.wb);
+        let Wn1 = pow2(c.wb * (n + 1));
+        assert(Wn1 == Wn * W);
+        lemma_mul_inequality((t0 * p * k) as int, (s1 * P2 * (k + 1)) as int, Wn1 as int);
+        // rearrangements
+        assert(t0 * Wn1 * p * k == (t0 * p * k) * Wn1) by (nonlinear_arith);
+        assert((s1 * P2 * (k + 1)) * Wn1 == (s1 * W) * Wn * P2 * (k + 1)) by (nonlinear_arith) requires Wn1 == Wn * W;
+        assert((s1 * W) * Wn * P2 * (k + 1) <= a.state * Wn * P2 * (k + 1)) by (nonlinear_arith) requires s1 * W <= a.state;
+    } else {
+        lemma_div_lt_from_quot(a.state, hi, p);
+        let s0 = hd(c, a);
+        lemma_head_step(c, a.state, s0, cum, p, prec);
+        let t0 = hd(c, b);
+        assert(b.bulk.len() == n);
+        lemma_mul_inequality((t0 * p * k) as int, (s0 * P2 * (k + 1)) as int, Wn as int);
+        assert(t0 * Wn * p * k == (t0 * p * k) * Wn) by (nonlinear_arith);
+        assert((s0 * P2 * (k + 1)) * Wn == s0 * Wn * P2 * (k + 1)) by (nonlinear_arith);
+    }
+}
+
+/// C12, n symbols with one precision: phi_n * prod(p_i * 2^k) <= phi_0 * prod(2^P * (2^k + 1)) and |bulk_n| <= |bulk_0| + n.
+/// (Taking log2 of this product inequality gives the information-content bound of C12: assumption A-log.)
+pub open spec fn pushes(c: Cfg, a: Ans, es: Seq<E>) -> Ans decreases es.len() {
+    if es.len() == 0 { a } else { let b = pushes(c, a, es.drop_last()); push(c, b, es.last().cum, es.last().p, es.last().prec) }
+}
+pub open spec fn den(c: Cfg, es: Seq<E>) -> nat decreases es.len() {
+    if es.len() == 0 { 1 } else { den(c, es.drop_last()) * (es.last().p * kk(c, es.last().prec)) }
+}
+pub open spec fn num(c: Cfg, es: Seq<E>) -> nat decreases es.len() {
+    if es.len() == 0 { 1 } else { num(c, es.drop_last()) * (pow2(es.last().prec) * (kk(c, es.last().prec) + 1)) }
+}
+pub open spec fn all_ok(c: Cfg, es: Seq<E>) -> bool { forall|i: int| 0 <= i < es.len() ==> e_ok(c, #[trigger] es[i]) }
+
+pub proof fn lemma_potential_n(c: Cfg, a: Ans, es: Seq<E>)
+    requires inv(c, a), all_ok(c, es)
+    ensures
+        phi(c, pushes(c, a, es)) * den(c, es) <= phi(c, a) * num(c, es),
+        pushes(c, a, es).bulk.len() <= a.bulk.len() + es.len(),
+        inv(c, pushes(c, a, es)),
+    decreases es.len()
+{
+    if es.len() == 0 {
+        assert(phi(c, a) * 1 == phi(c, a)) by (nonlinear_arith);
+    } else {
+        let pre = es.drop_last(); let e = es.last();
+        assert(all_ok(c, pre)) by { assert forall|i: int| 0 <= i < pre.len() implies e_ok(c, #[trigger] pre[i]) by { assert(pre[i] == es[i]); } }
+        lemma_potential_n(c, a, pre);
+        let b = pushes(c, a, pre);
+        assert(e_ok(c, es[es.len() - 1]));
+        lemma_pop_push(c, b, e.cum, e.p, e.prec);
+        lemma_potential_step(c, b, e.cum, e.p, e.prec);
+        let b1 = push(c, b, e.cum, e.p, e.prec);
+        let d = den(c, pre); let nm = num(c, pre); let f = e.p * kk(c, e.prec); let g = pow2(e.prec) * (kk(c, e.prec) + 1);
+        // phi(b1)*f <= phi(b)*g  and  phi(b)*d <= phi(a)*nm   =>   phi(b1)*(d*f) <= phi(a)*(nm*g)
+        assert(phi(c, b1) * f <= phi(c, b) * g) by (nonlinear_arith)
+            requires phi(c, b1) * e.p * kk(c, e.prec) <= phi(c, b) * pow2(e.prec) * (kk(c, e.prec) + 1), f == e.p * kk(c, e.prec), g == pow2(e.prec) * (kk(c, e.prec) + 1);
+        assert(phi(c, b1) * (d * f) <= phi(c, a) * (nm * g)) by (nonlinear_arith)
+            requires phi(c, b1) * f <= phi(c, b) * g, phi(c, b) * d <= phi(c, a) * nm;
+    }
+}
+proof fn lemma_potential_step_reach(c: Cfg, a: Ans, cum: nat, p: nat, prec: nat)
+    requires cfg_ok(c, prec), inv(c, a), entry_ok(cum, p, prec), a.bulk.len() > 0
+    ensures false
+{}
+
 // ---------- vacuity probes (must FAIL) ----------
 proof fn lemma_pop_push_reach(c: Cfg, a: Ans, cum: nat, p: nat, prec: nat)
     requires cfg_ok(c, prec), inv(c, a), entry_ok(cum, p, prec), p < pow2(prec)
